@@ -99,6 +99,11 @@ func checkC09(c *Ctx) {
 	c09StatelessRegex(c, "R09k")
 	r.Rule("R09m", "the header merge (annotations.CombineHeaders) orders only slices it owns: the service-level header list shared by all methods is never appended into or sorted in place (shared with C15/R15h)", 1)
 	sharedSliceMutation(c, "R09m", func(fn *types.Func) bool { return strings.HasSuffix(fn.Pkg().Path(), "internal/annotations") })
+	r.Rule("R09n", "the emitted merge of service-level and method-level headers keys the merged map by a case-folded name, so a method-level declaration replaces the service-level one of the same (case-insensitive) header", 2)
+	r.Rule("R09o", "annotations.CombineHeaders (the merge behind the OpenAPI parameter list) indexes its name-keyed map by a case-folded name, as the generated Go server's merge does", 3)
+	c09CombineKeys(c, "R09o")
+	r.Rule("R09p", "the OpenAPI generator never stores, once per loop iteration, the address of a variable that lives across iterations (one shared pointer: every parameter would publish the required flag of the last header)", 1)
+	outerAddrStoredInLoop(c, "R09p", pkgOpenAPI)
 	r.Rule("R09l", "header violation descriptions are built from the declared name and the error, not from the raw value", 1)
 	c09ViolationText(c, ep, "R09l")
 	eff := NewEffects(ep)
@@ -206,6 +211,37 @@ func checkC09(c *Ctx) {
 				vloop = l
 			case storesIntoMap(l):
 				mergeLoops = append(mergeLoops, l)
+			}
+		}
+		// R09n: two levels merged into one map replace each other only if the key ignores letter case, as header names do
+		{
+			folded := func(body ast.Node, e ast.Expr, depth int) bool { return caseFolded(ep.Info, body, e, depth) }
+			if len(mergeLoops) >= 2 {
+				for _, ml := range mergeLoops {
+					ml := ml
+					ast.Inspect(ml.Body, func(n ast.Node) bool {
+						as, ok := n.(*ast.AssignStmt)
+						if !ok {
+							return true
+						}
+						for _, lh := range as.Lhs {
+							ix, ok := lh.(*ast.IndexExpr)
+							if !ok {
+								continue
+							}
+							if tv, ok := ep.Info.Types[ix.X]; !ok || tv.Type == nil {
+								continue
+							} else if _, isMap := tv.Type.Underlying().(*types.Map); !isMap {
+								continue
+							}
+							r.Check(folded(ml.Body, ix.Index, 0), "R09n", "validateHeaders: merge over "+ep.Text(ml.X)+" keys "+ep.Text(ix.X)+" by a case-folded name", ep.GenPos(as.Pos()),
+								"the merge stores "+ep.Text(lh)+" under a key that keeps the declared letter case: a method-level declaration spelled in another case does not replace the service-level one (header names are case-insensitive, r.Header.Get reads one value for both), so both are enforced against one header value and a request valid for the effective declaration is rejected")
+						}
+						return true
+					})
+				}
+			} else {
+				r.Unres("R09n", "validateHeaders merge loops", ep.GenPos(vh.Pos()), fmt.Sprintf("expected the service-level and the method-level merge loop, found %d", len(mergeLoops)))
 			}
 		}
 		specName := "headerSpec"
@@ -962,4 +998,179 @@ func c09ViolationText(c *Ctx, ep *EmittedPkg, rid string) {
 	}
 	r.Check(n > 0 && bad == "", rid, "header violation descriptions do not embed the raw header value", pos,
 		"validateHeaders puts the raw header value into FieldViolation.Description ("+bad+"): header values are arbitrary bytes; a value that is not valid UTF-8 makes protojson/proto.Marshal of the ValidationError fail, and the response degrades to a bare text 400 without any violation (also for the other offending headers of the request)")
+}
+
+// caseFolded: does the expression (through local definitions in body, three deep) pass through a case-normalising call?
+func caseFolded(info *types.Info, body ast.Node, e ast.Expr, depth int) bool {
+	foldFns := map[string]bool{"strings.ToLower": true, "strings.ToUpper": true, "net/http.CanonicalHeaderKey": true, "net/textproto.CanonicalMIMEHeaderKey": true}
+	hit := false
+	ast.Inspect(e, func(n ast.Node) bool {
+		switch x := n.(type) {
+		case *ast.CallExpr:
+			if sel, ok := x.Fun.(*ast.SelectorExpr); ok {
+				if f, ok := info.Uses[sel.Sel].(*types.Func); ok && foldFns[f.FullName()] {
+					hit = true
+				}
+			}
+		case *ast.Ident:
+			if depth < 3 {
+				obj := info.ObjectOf(x)
+				if _, isVar := obj.(*types.Var); !isVar {
+					return true
+				}
+				ast.Inspect(body, func(m ast.Node) bool {
+					if as, ok := m.(*ast.AssignStmt); ok && len(as.Lhs) == len(as.Rhs) {
+						for i, lh := range as.Lhs {
+							if id, ok := lh.(*ast.Ident); ok && info.ObjectOf(id) == obj && caseFolded(info, body, as.Rhs[i], depth+1) {
+								hit = true
+							}
+						}
+					}
+					return true
+				})
+			}
+		}
+		return !hit
+	})
+	return hit
+}
+
+// c09CombineKeys — R09o. annotations.CombineHeaders decides "the same header" for the OpenAPI parameter list and the TS
+// route; every index into its name-keyed map (store and lookup) must use a case-folded name, as the Go server's merge does.
+func c09CombineKeys(c *Ctx, rid string) {
+	r := c.R
+	fn := c.P.Func("internal/annotations", "CombineHeaders")
+	if fn == nil {
+		r.Unres(rid, "CombineHeaders", "", "not found")
+		return
+	}
+	decl := c.P.Decls[fn]
+	info := c.P.DeclPkg[fn].TypesInfo
+	n := 0
+	ast.Inspect(decl.Body, func(nd ast.Node) bool {
+		ix, ok := nd.(*ast.IndexExpr)
+		if !ok {
+			return true
+		}
+		tv, ok := info.Types[ix.X]
+		if !ok || tv.Type == nil {
+			return true
+		}
+		mt, isMap := tv.Type.Underlying().(*types.Map)
+		if !isMap || !isStringType(mt.Key()) {
+			return true
+		}
+		n++
+		r.Check(caseFolded(info, decl.Body, ix.Index, 0), rid, fmt.Sprintf("CombineHeaders: %s is indexed by a case-folded name (index site %d)", types.ExprString(ix.X), n), c.P.Pos(ix.Pos()),
+			"CombineHeaders indexes "+types.ExprString(ix)+" by the declared spelling: a method-level header spelled in another letter case does not replace the service-level one, the operation publishes two parameters for one (case-insensitive) header and the generated servers disagree with the document about which declaration is in force")
+		return true
+	})
+	if n == 0 {
+		r.Unres(rid, "CombineHeaders name-keyed map", c.P.Pos(decl.Pos()), "no map indexed by header name found: the merge by name changed shape")
+	}
+}
+
+func isStringType(t types.Type) bool {
+	b, ok := t.Underlying().(*types.Basic)
+	return ok && b.Info()&types.IsString != 0
+}
+
+// outerAddrStoredInLoop — R09p. In the OpenAPI generator: the address of a local variable that is declared outside a loop,
+// re-assigned inside it and stored (composite literal field, assignment, append) once per iteration is one pointer shared by
+// every element built by the loop: all of them read the value of the last iteration (e.g. Parameter.Required of every header).
+func outerAddrStoredInLoop(c *Ctx, rid string, rels ...string) {
+	r := c.R
+	nAddr, nBad, nOther := 0, 0, 0
+	for _, rel := range rels {
+		pk := c.P.Pkg(rel)
+		if pk == nil {
+			r.Unres(rid, rel, "", "package not loaded")
+			continue
+		}
+		info := pk.TypesInfo
+		for _, nf := range sortedFuncNames(c.oaDecls(rel)) {
+			decl := c.oaDecls(rel)[nf.fn]
+			if decl == nil || decl.Body == nil {
+				continue
+			}
+			parents := parentMap(decl.Body)
+			ast.Inspect(decl.Body, func(nd ast.Node) bool {
+				ue, ok := nd.(*ast.UnaryExpr)
+				if !ok || ue.Op != token.AND {
+					return true
+				}
+				id, ok := ast.Unparen(ue.X).(*ast.Ident)
+				if !ok {
+					if _, isSel := ast.Unparen(ue.X).(*ast.SelectorExpr); isSel {
+						nOther++
+					}
+					return true
+				}
+				v, ok := info.ObjectOf(id).(*types.Var)
+				if !ok || v.Pkg() == nil || v.Parent() == v.Pkg().Scope() {
+					return true
+				}
+				// stored, not just lent to a call?
+				stored := false
+				switch p := parents[ast.Node(ue)].(type) {
+				case *ast.KeyValueExpr:
+					stored = p.Value == ast.Expr(ue)
+				case *ast.CompositeLit:
+					stored = true
+				case *ast.AssignStmt:
+					for _, rh := range p.Rhs {
+						if rh == ast.Expr(ue) {
+							stored = true
+						}
+					}
+				case *ast.CallExpr:
+					if fid, ok := p.Fun.(*ast.Ident); ok && fid.Name == "append" {
+						stored = true
+					}
+				}
+				if !stored {
+					return true
+				}
+				// innermost enclosing loop whose body does not contain v's declaration
+				var loop ast.Node
+				var body *ast.BlockStmt
+				for p := parents[ast.Node(ue)]; p != nil; p = parents[p] {
+					switch l := p.(type) {
+					case *ast.RangeStmt:
+						loop, body = l, l.Body
+					case *ast.ForStmt:
+						loop, body = l, l.Body
+					default:
+						continue
+					}
+					break
+				}
+				if loop == nil {
+					return true
+				}
+				nAddr++
+				if v.Pos() >= loop.Pos() && v.Pos() < loop.End() {
+					return true // the loop's own per-iteration variable, or declared in the body
+				}
+				assignedInLoop := false
+				ast.Inspect(body, func(m ast.Node) bool {
+					if as, ok := m.(*ast.AssignStmt); ok {
+						for _, lh := range as.Lhs {
+							if li, ok := ast.Unparen(lh).(*ast.Ident); ok && info.ObjectOf(li) == types.Object(v) {
+								assignedInLoop = true
+							}
+						}
+					}
+					return true
+				})
+				if assignedInLoop {
+					nBad++
+					r.Bad(rid, fmt.Sprintf("%s.%s: &%s stored per iteration", pkgShort(rel), nf.name, id.Name), c.P.Pos(ue.Pos()),
+						fmt.Sprintf("%s stores &%s once per iteration of the loop at %s, but %s is declared outside the loop and re-assigned inside it: every element shares one pointer and reads the value of the last iteration (for header parameters: the `required` flag of the last header is published for all of them, so a required header is published as optional while the servers still enforce it)", nf.name, id.Name, c.P.Pos(loop.Pos()), id.Name), nil)
+				}
+				return true
+			})
+		}
+	}
+	r.OKd(rid, "addresses of locals stored inside loops inspected", "", map[string]any{"stored_addresses_of_locals_in_loops": nAddr, "addresses_of_fields_seen": nOther, "shared_across_iterations": nBad})
 }
